@@ -95,8 +95,10 @@ func (d MarchingCanvas) index(x, y, z int) int {
 }
 
 func (d *MarchingCanvas) chunkIndex_atomic(section *marchingSection, vec modeling.VectorInt) int {
+	verifYield("canvas:chunk:lock")
 	d.chunkMutex.Lock()
 	defer d.chunkMutex.Unlock()
+	verifYield("canvas:chunk:locked")
 	chunkIndex, ok := section.positions[vec]
 	if !ok {
 		switch section.dataType {
@@ -291,6 +293,7 @@ func (d *MarchingCanvas) AddField(field Field) {
 
 func (d *MarchingCanvas) AddFieldParallel(field Field) {
 	workers := runtime.NumCPU()
+	workers = verifWorkers(workers)
 	if workers == 1 {
 		d.AddField(field)
 		return
@@ -312,12 +315,17 @@ func (d *MarchingCanvas) AddFieldParallel(field Field) {
 	for w := 0; w < workers; w++ {
 		go func(jobs <-chan job, results chan<- int) {
 			completed := 0
+			verifYield("addfield:worker:start")
 			for j := range jobs {
+				verifYield("addfield:worker:job")
 				d.addFloat1Range(j.section, j.chunkPos, j.startPos, j.endPos, j.function)
 				completed++
+				verifYield("addfield:worker:next")
 			}
+			verifYield("addfield:worker:result")
 			results <- completed
 		}(jobs, results)
+		verifYield("spawn:addfield")
 	}
 
 	for attribute, function := range field.Float1Functions {
@@ -333,6 +341,7 @@ func (d *MarchingCanvas) AddFieldParallel(field Field) {
 				Y: minInt((chunkPos.Y*marchingSectionSize)+marchingSectionSize, max.Y),
 				Z: minInt((chunkPos.Z*marchingSectionSize)+marchingSectionSize, max.Z),
 			}
+			verifYield("addfield:send")
 			jobs <- job{
 				section:  section,
 				chunkPos: chunkPos,
@@ -343,9 +352,11 @@ func (d *MarchingCanvas) AddFieldParallel(field Field) {
 		}
 	}
 
+	verifYield("addfield:close")
 	close(jobs)
 
 	for i := 0; i < workers; i++ {
+		verifYield("addfield:collect")
 		<-results
 	}
 }
@@ -362,17 +373,22 @@ func (d *MarchingCanvas) AddFieldParallel2(field Field) {
 	chunkSections := d.chunkSectionsInRange(min, max)
 
 	workers := runtime.NumCPU()
+	workers = verifWorkers(workers)
 	numJobs := len(chunkSections)
 	jobs := make(chan *job, numJobs)
 	results := make(chan *job, numJobs)
 
 	for w := 0; w < workers; w++ {
 		go func(jobs <-chan *job, results chan<- *job) {
+			verifYield("addfield2:worker:start")
 			for j := range jobs {
+				verifYield("addfield2:worker:job")
 				j.data = d.calcFloat1Range(j.startPos, j.endPos, j.function)
+				verifYield("addfield2:worker:result")
 				results <- j
 			}
 		}(jobs, results)
+		verifYield("spawn:addfield2")
 	}
 
 	for attribute, function := range field.Float1Functions {
@@ -388,6 +404,7 @@ func (d *MarchingCanvas) AddFieldParallel2(field Field) {
 				Y: minInt((chunkPos.Y*marchingSectionSize)+marchingSectionSize, max.Y),
 				Z: minInt((chunkPos.Z*marchingSectionSize)+marchingSectionSize, max.Z),
 			}
+			verifYield("addfield2:send")
 			jobs <- &job{
 				section:  section,
 				chunkPos: chunkPos,
@@ -399,10 +416,12 @@ func (d *MarchingCanvas) AddFieldParallel2(field Field) {
 		}
 	}
 
+	verifYield("addfield2:close")
 	close(jobs)
 
 	for j := 0; j < numJobs; j++ {
 
+		verifYield("addfield2:collect")
 		result := <-results
 		i := 0
 		chunkPos := result.chunkPos
@@ -671,6 +690,7 @@ func (d MarchingCanvas) marchFloat1(cutoff float64, meshAttribute string, sectio
 
 func (d MarchingCanvas) marchFloat1Parallel(cutoff float64, meshAttribute string, section *marchingSection) modeling.Mesh {
 	workers := runtime.NumCPU()
+	workers = verifWorkers(workers)
 
 	if workers == 1 {
 		return d.marchFloat1(cutoff, meshAttribute, section)
@@ -682,19 +702,26 @@ func (d MarchingCanvas) marchFloat1Parallel(cutoff float64, meshAttribute string
 
 	for w := 0; w < workers; w++ {
 		go func(jobs <-chan modeling.VectorInt, results chan<- modeling.Mesh) {
+			verifYield("march:worker:start")
 			for j := range jobs {
+				verifYield("march:worker:job")
 				results <- d.marchFloat1BlockPosition(cutoff, meshAttribute, section, j)
+				verifYield("march:worker:next")
 			}
 		}(jobs, results)
+		verifYield("spawn:march")
 	}
 
 	for blockPosition := range section.positions {
+		verifYield("march:send")
 		jobs <- blockPosition
 	}
+	verifYield("march:close")
 	close(jobs)
 
 	finalMesh := modeling.EmptyMesh(modeling.TriangleTopology)
 	for i := 0; i < numJobs; i++ {
+		verifYield("march:collect")
 		finalMesh = finalMesh.Append(<-results)
 	}
 
